@@ -44,10 +44,20 @@ def main():
     broken = []         # names of theorems / ties that no longer check
     with lib.BuildLock():
         ok_tr, tr_out, tr_rep = lib.translate()
-        proof['translated'] = ok_tr
+        # a kernel that lost its shape breaks the properties whose theorems require the generated file it belongs to (coqdep closure of
+        # Props/<pid>.v); for the other generated files that failed, the reference translation is installed so that the shared comparison
+        # library still builds - nothing this property claims rests on them
+        others = set()
         if not ok_tr:
-            for f in tr_rep.get('failures', []) or [{'file': '?', 'error': tr_out[-400:]}]:
+            failures = tr_rep.get('failures', []) or [{'file': '?', 'error': tr_out[-400:]}]
+            deps = lib.gen_deps(pid)
+            mine = [f for f in failures if f['file'] == '?' or f['file'] in deps]
+            others = {f['file'] for f in failures} - {f['file'] for f in mine}
+            for f in mine:
                 broken.append({'kind': 'translation', 'name': f['file'], 'detail': f['error']})
+            if others:
+                lib.install_reference_gen(only=others)
+        proof['translated'] = not broken
         ok_mk, mk_out = lib.make([f'Props/{pid}.vo'] + [f'Model/{m}.vo' for m in getattr(mod, 'MODEL_DEPS', ['CheckLib'])])
         proof['built'] = ok_mk
         if not ok_mk:
@@ -79,7 +89,7 @@ def main():
                    'violations': [{'signature': 'harness-error', 'what': traceback.format_exc()[-1500:], 'case': None}]}
         finally:
             _cleanup(ctx['work'])
-            if ctx['reference_model']:
+            if ctx['reference_model'] or others:
                 lib.translate()
     violations += res.get('violations', [])
     if replaying is not None and not replaying.get('no_failing_input_found'):
@@ -129,6 +139,8 @@ def main():
             'translated_kernels': [kk for kk in tr_rep.get('kernels', []) if kk['kernel'].split('.')[0] in getattr(mod, 'KERNELS', ()) or kk['kernel'] in getattr(mod, 'KERNELS', ())],
             'translation_ok': proof['translated'], 'build_ok': proof['built'],
             'broken_obligations': broken,
+            'generated_files_required': sorted(lib.gen_deps(pid)),
+            'generated_files_that_failed_but_are_not_required': sorted(others),
             'evaluations': res.get('evaluations', 0),
             'distinct_nontrivial': res.get('distinct_nontrivial', 0),
             'rule': res.get('rule', ''),
